@@ -136,7 +136,7 @@ def main(tier, replay=None):
     # 2. lexer + parser + formatter on every input (8 MiB stack, watchdog)
     out = clean_dir(os.path.join(wd, "out"))
     summary, problems = pc.run_harness(inputs, out, mode="format", stack_mb=8, budget_ms=5000,
-                                       trace_max=32 if tier == "quick" else 40)
+                                       trace_max=32)
     log(f"[C09] parse+format: {json.dumps({k: summary[k] for k in ('inputs', 'parsed', 'formatted', 'with_parser_diags', 'with_skipped_token', 'with_missing', 'distinct_traces', 'wall_ms')})}")
     n_crash = len([p for p in problems if p["kind"] == "crash"])
     if summary["inputs"] + n_crash < n_inputs:
@@ -199,7 +199,7 @@ def main(tier, replay=None):
         "inputs": n_inputs, "evaluations": summary["inputs"] + summary2["inputs"],
         "distinct_nontrivial": summary["distinct_nontrivial_traces"],
         "rule": "inputs = all LexModel strings/soups of the tier + seeded corpus mutants + corpus originals + nesting probes at depth 200; "
-                "distinct = distinct abstract (lexer terminals, tree leaves) trace among inputs with <= 32/40 terminals; "
+                "distinct = distinct abstract (lexer terminals, tree leaves) trace among inputs with <= 32 terminals; "
                 "non-trivial = the parse needed recovery (a skipped token, a missing token or a skipped node in the tree)",
         "parsed_and_formatted": summary["formatted"], "with_parser_diagnostics": summary["with_parser_diags"],
         "full_diagnostics_inputs": summary2["full"], "semantic_lowering_diagnostics_seen": summary2["sem_diags"],
